@@ -328,5 +328,42 @@ def gen_agg_program(rng):
     return p
 
 
+def gen_agg_lat_program(rng):
+    """a lattice program (gen_lat_program) plus aggregation / negation rules that range over a LATTICE relation with a strict subset
+    of its key columns bound (or none): the aggregate reads a non-unique index of the lattice, which must hold one entry per key even
+    after rows were improved in place (C04: one row per key for a lattice)"""
+    p = gen_lat_program(rng)
+    lats = [r for r, d in enumerate(p["rels"]) if d.get("lat") and d["arity"] >= 2]
+    rels = [r for r, d in enumerate(p["rels"]) if not d.get("lat")]
+    if not lats: return p
+    for _ in range(rng.range(1, 3)):
+        l = rng.choice(lats)
+        lar = p["rels"][l]["arity"]
+        key = rng.choice(rels)
+        kar = p["rels"][key]["arity"]
+        kvars = list(range(kar))
+        body = [("cl", key, [("v", v) for v in kvars], [])]
+        fn = rng.choice(["count", "count", "sum", "min", "max", "not"])
+        nkeys = lar - 1
+        aargs, bound = [], []
+        # bind a strict subset of the key columns (possibly none); the lattice column is never bound
+        nbind = rng.range(0, nkeys - 1) if nkeys > 1 else 0
+        bind_pos = set()
+        while len(bind_pos) < nbind: bind_pos.add(rng.below(nkeys))
+        for j in range(nkeys):
+            if j in bind_pos: aargs.append(("k", ("var", rng.choice(kvars))))
+            elif fn in ("sum", "min", "max") and not bound: aargs.append(("b", 20)); bound.append(20)
+            else: aargs.append("_")
+        aargs.append("_")
+        if fn in ("sum", "min", "max") and not bound: fn = "count"
+        outs = [] if fn == "not" else [21]
+        body.append(("agg", outs, fn, bound, l, aargs))
+        har = 2 if outs else 1
+        hargs = [("var", rng.choice(kvars))] + ([("var", 21)] if outs else [])
+        p["rels"].append({"arity": har})
+        p["rules"].append({"heads": [(len(p["rels"]) - 1, hargs)], "body": body})
+    return p
+
+
 def nodup_input(rng, p, max_rows=8):
     return dedup_input(gen_input(rng, p, max_rows))
